@@ -26,8 +26,9 @@ type ONS struct {
 	track [12]int
 	Tag   string
 	// top-level names this script created (or tried to), in creation order
-	names []string
-	g     int // progress of the gamma track (sub-domain created in the block of its parent's purchase)
+	names              []string
+	relisted, lowOffer bool
+	g                  int // progress of the gamma track (sub-domain created in the block of its parent's purchase)
 }
 
 func (o *ONS) Name() string { return "ons" }
@@ -495,11 +496,18 @@ func (o *ONS) gammaTrack(c *Ctx) []hist.TxSpec {
 	case o.g == 1 && changeable(c, g):
 		o.g = 2
 		return []hist.TxSpec{onsSell(c, seller, gamma, OLT(321), false, "owner lists the name")}
-	case o.g == 2 && changeable(c, g) && g.OnSale:
+	case o.g == 2 && changeable(c, g) && g.OnSale && g.Price().Cmp(bigOf(OLT(321))) == 0 && !o.relisted:
+		// listed again at a higher price, without cancelling the first listing
+		o.relisted = true
+		return []hist.TxSpec{onsSell(c, seller, gamma, OLT(654), false, "owner lists the name again at a higher price (no cancellation in between)")}
+	case o.g == 2 && changeable(c, g) && g.OnSale && o.relisted && !o.lowOffer:
+		o.lowOffer = true
+		return []hist.TxSpec{onsPurchase(c, us[2%len(us)], nil, gamma, OLT(400), "offer between the first and the second asking price (must fail)")}
+	case o.g == 2 && changeable(c, g) && g.OnSale && o.lowOffer:
 		o.g = 3
 		return []hist.TxSpec{
 			onsCreate(c, seller, nil, "late."+gamma, priceFor(c, 1), "", "owner creates a sub-domain in the very block in which the name is bought"),
-			onsPurchase(c, buyer, nil, gamma, OLT(321), "purchase at the asking price, right after the seller created a sub-domain"),
+			onsPurchase(c, buyer, nil, gamma, g.Price().String(), "purchase at the asking price, right after the seller created a sub-domain"),
 		}
 	case o.g == 3 && changeable(c, g) && g.Owner == buyer.Addr.String():
 		o.g = 4
@@ -552,3 +560,11 @@ func (o *ONS) Plan(c *Ctx) []hist.TxSpec {
 }
 
 func (o *ONS) Observe(c *Ctx, blk *hist.Block) {}
+
+func bigOf(v string) *big.Int {
+	b, _ := new(big.Int).SetString(v, 10)
+	if b == nil {
+		return new(big.Int)
+	}
+	return b
+}
